@@ -5,6 +5,7 @@ package main
 // watermarks and event times) for every single-input node kind; drive: the real nodes (util_ops.go).
 
 import (
+	"bytes"
 	"bufio"
 	"fmt"
 	"strings"
@@ -15,7 +16,7 @@ import (
 )
 
 func init() {
-	register("C15", &prop{gen: genC15, drive: driveOps})
+	register("C15", &prop{gen: genC15WithTriggers, drive: driveC15})
 }
 
 // ---- row universes --------------------------------------------------------------------------------------------
@@ -438,4 +439,30 @@ func genC15(g *Gen, tier string, w *bufio.Writer) {
 			fmt.Fprintf(w, "pipe %d %s | %s\n", k, strings.Join(parts, " "), srcTokens(g, s, true))
 		}
 	}
+}
+
+
+// The group-by node under early-firing triggers (COUNTING n, ON WATERMARK, combinations) is part of C15's "group by"
+// too: a sample of the C16 generator's streams is replayed here and judged by the same oracle (consolidated output =
+// batch GROUP BY, for every trigger configuration).
+func genC15WithTriggers(g *Gen, tier string, w *bufio.Writer) {
+	genC15(g, tier, w)
+	var buf bytes.Buffer
+	bw := bufio.NewWriter(&buf)
+	genC16(g, tier, bw)
+	bw.Flush()
+	every := 8
+	for i, line := range strings.Split(buf.String(), "\n") {
+		if line != "" && i%every == 0 {
+			w.WriteString(line)
+			w.WriteByte('\n')
+		}
+	}
+}
+
+func driveC15(toks []string) string {
+	if toks[0] == "gb" || toks[0] == "sgb" {
+		return driveTrigProps(toks)
+	}
+	return driveOps(toks)
 }
